@@ -62,8 +62,10 @@ def strategy(tier):
     sleeper = st.tuples(t, st.lists(delay, min_size=1, max_size=4)).map(list)
     switch = st.tuples(t, st.booleans()).map(list)
     jitter = st.one_of(st.just([]), st.lists(st.sampled_from([0.0, 0.0, 0.01, 0.03, 0.05]), min_size=1, max_size=7))
-    hist = st.builds(lambda sl, sw, j: {"k": "hist", "sleepers": sl, "switches": sw, "jitter": j},
-                     st.lists(sleeper, min_size=1, max_size=12), st.lists(switch, min_size=1, max_size=8), jitter)
+    # other task managers of the same process (a second spa, a short-lived discovery) opening and closing while sleepers sleep
+    other = st.lists(st.tuples(t, st.sampled_from([0.0, 0.5, 1.0, 3.0, 29.0, 31.0])).map(list), max_size=3)
+    hist = st.builds(lambda sl, sw, j, o: dict({"k": "hist", "sleepers": sl, "switches": sw, "jitter": j}, **({"others": o} if o else {})),
+                     st.lists(sleeper, min_size=1, max_size=12), st.lists(switch, min_size=1, max_size=8), jitter, st.one_of(st.just([]), other))
     # an element is one raw state per device, or "reconnect": the facade is discarded and a new one is built on the same spa state
     # (what every reset / recovery does) while the process-wide configuration stays as it is
     assign = st.lists(st.integers(0, 3), min_size=8, max_size=8)
@@ -114,8 +116,17 @@ def _run_hist(res, case):
         # switches are started after the sleepers so that a switch at the same instant as a
         # sleeper start runs after it (the sleeper is pending); the reverse order is covered by
         # sleepers whose *expiry* coincides with a switch
+        async def other_manager(at, dur):
+            from geckolib import AsyncTasks
+            await W.sleep(at)
+            tm2 = AsyncTasks()
+            async with tm2:      # its tidy task is a config-aware sleeper of its own
+                tm2.add_task(gc.config_sleep(500.0), "Sleeper", "OTHER")
+                await W.sleep(dur)
+
+        otasks = [asyncio.ensure_future(other_manager(float(a), float(d))) for a, d in case.get("others", [])]
         stasks = [asyncio.ensure_future(switcher(float(a), bool(m))) for a, m in case["switches"]]
-        await asyncio.gather(*stasks)
+        await asyncio.gather(*stasks, *otasks)
         limit = W.clock.t + 1300
         while not all(t.done() for t in tasks) and W.clock.t < limit:
             await W.sleep(1.0)
@@ -154,6 +165,8 @@ def _run_hist(res, case):
     W.run(main)
     res.nontrivial = stats["nt"]
     res.label("history")
+    if case.get("others"):
+        res.label("history-with-other-task-managers")
 
 
 # ------------------------------------------------------------------ facade part
